@@ -42,6 +42,8 @@ for _i in range(NF):
         ATOM["%s%d" % (_b, _i)] = _n + _i
 for _k, _t in enumerate(["T", "U", "i32", "u8", "String", "Vec<T>", "&'static str", "Option<U>", "[u8; 4]", "X"]):
     ATOM[_t] = 80 + _k
+ATOM["Tag<T>"] = 95      # a field type that REQUIRES the item's bound on its parameter (`struct Tag<X: Label>`)
+ATOM["Tag<U>"] = 96
 # the same universe types reached through a path: the first segment collides with attribute words / legacy names
 PATH_PREFIXES = ["types", "self", "crate", "crate::m", "m::types", "forward", "skip", "ignore", "r#ref", "owned", "ref_mut"]
 INTO_SAFE_PREFIXES = PATH_PREFIXES           # `owned::X` / `ref_mut::X` are types since ce243e7 (keyword only if no `::` follows)
@@ -231,7 +233,29 @@ def canon_paren(s):
 GENERICS = [("", "", [], []),
             ("<T>", "<T>", ["T"], []),
             ("<T: Clone, U>", "<T, U>", ["T:Clone", "U"], []),
-            ("<T, U>", "<T, U>", ["T", "U"], ["U:Default"])]
+            ("<T, U>", "<T, U>", ["T", "U"], ["U:Default"]),
+            # run-time capable: the bound is needed by a field of type Tag<..>; inline, in a where clause, or both
+            ("<T: Label>", "<T>", ["T:Label"], []),
+            ("<T>", "<T>", ["T"], ["T:Label"]),
+            ("<T, U: Label>", "<T, U>", ["T", "U:Label"], ["T:Label"])]
+GEN_TAGS = {4: ["Tag<T>"], 5: ["Tag<T>"], 6: ["Tag<T>", "Tag<U>"]}
+
+
+def choose_gen(rng, rt):
+    if rng.random() < 0.1:
+        return rng.choice([4, 5, 5, 6])
+    return 0 if rt or rng.random() < 0.6 else rng.randrange(1, 4)
+
+
+def with_tags(rng, gen, ftys):
+    """every type parameter of a run-time capable generic item is used by a field of type Tag<param>"""
+    tags = GEN_TAGS.get(gen, [])
+    ftys = list(ftys)
+    while len(ftys) < len(tags):
+        ftys.append("F%d" % rng.randrange(NF))
+    for t, pos in zip(tags, rng.sample(range(len(ftys)), len(tags))):
+        ftys[pos] = t
+    return ftys
 KINDS = ["owned", "ref", "ref_mut"]
 KIND_COQ = {"owned": "KOwned", "ref": "KRef", "ref_mut": "KRefMut"}
 KIND_PY = {v: k for k, v in KIND_COQ.items()}
@@ -748,6 +772,13 @@ pub mod owned { pub use super::*; }
 pub mod ref_mut { pub use super::*; }
 pub mod r#ref { pub use super::*; }
 pub mod m { pub use super::*; }
+pub trait Label {}
+#[derive(Debug, PartialEq, Clone)] pub struct L0;
+#[derive(Debug, PartialEq, Clone)] pub struct L1;
+impl Label for L0 {}
+impl Label for L1 {}
+#[derive(Debug, PartialEq, Clone)] pub struct Tag<X: Label> { pub v: u32, pub m: PhantomData<X> }
+impl<X: Label> Tag<X> { pub fn mk(v: u32) -> Self { Tag { v, m: PhantomData } } }
 macro_rules! fam { ($F:ident $Pa:ident $Pb:ident $Qa:ident $Qb:ident $Ra:ident $Rb:ident) => {
     #[derive(Debug, PartialEq, Clone)] pub struct $Ra(pub u32);
     #[derive(Debug, PartialEq, Clone)] pub struct $Rb(pub u32);
@@ -779,11 +810,13 @@ def mk_val(t, base):
         return "(%s)" % ", ".join(mk_val(x, base + j) for j, x in enumerate(t))
     if t.startswith("F"):
         return "%s::mk(%d)" % (t, base)
+    if t.startswith("Tag<"):
+        return "<%s>::mk(%d)" % (t, base)
     return "%s(%d)" % (t, base)
 
 
 def getter(t):
-    return ".v" if t.startswith("F") else ".0"
+    return ".v" if t.startswith("F") or t.startswith("Tag<") else ".0"
 
 
 def show_expr(expr, t):
@@ -999,21 +1032,28 @@ def gen_spell(rng):
 
 
 def gen_from(rng, rt):
-    gen = 0 if rt or rng.random() < 0.6 else rng.randrange(1, len(GENERICS))
+    gen = choose_gen(rng, rt)
     if rng.random() < 0.45:
         n = rng.choice(N_WEIGHTS)
         ftys = pick_fields(rng, n, rt)
         if rng.random() < 0.1:
             n, ftys = 1, [sole_tuple_field(rng)]
+        ftys = with_tags(rng, gen, ftys)
+        n = len(ftys)
         return {"derive": "From", "kind": "struct", "gen": gen, "style": style_for(rng, n),
                 "attrs": gen_from_attrs(rng, ftys, rt, False), "fields": ftys, "rt": rt, "spell": gen_spell(rng),
                 "raw": gen_raw(rng)}
     vs = []
-    for _ in range(rng.choice([1, 2, 2, 3, 3, 4, 5])):
+    nv = rng.choice([1, 2, 2, 3, 3, 4, 5])
+    tagged = rng.randrange(nv)
+    for vi in range(nv):
         n = rng.choice([0, 0, 1, 1, 1, 2, 2, 3, 4])
         ftys = pick_fields(rng, n, rt)
         if rng.random() < 0.06:
             n, ftys = 1, [sole_tuple_field(rng)]
+        if vi == tagged:
+            ftys = with_tags(rng, gen, ftys)
+            n = len(ftys)
         vs.append({"style": style_for(rng, n), "attrs": gen_from_attrs(rng, ftys, rt, True), "fields": ftys})
     return {"derive": "From", "kind": "enum", "gen": gen, "variants": vs, "rt": rt, "spell": gen_spell(rng),
             "raw": gen_raw(rng)}
@@ -1074,16 +1114,18 @@ def gen_conv_attrs(rng, src, rt, allow_empty_list):
 
 
 def gen_into(rng, rt):
-    gen = 0 if rt or rng.random() < 0.6 else rng.randrange(1, len(GENERICS))
+    gen = choose_gen(rng, rt)
     n = rng.choice(N_WEIGHTS)
     ftys = pick_fields(rng, n, rt)
     sole = None
-    if rng.random() < 0.1:
+    if rng.random() < 0.1 and gen not in GEN_TAGS:
         # exactly one field takes part and its type is a tuple; the others (if any) are skipped
         n = rng.choice([1, 1, 2, 3])
         sole = rng.randrange(n)
         ftys = pick_fields(rng, n, rt)
         ftys[sole] = sole_tuple_field(rng)
+    ftys = with_tags(rng, gen, ftys)
+    n = len(ftys)
     fields = []
     for idx, t in enumerate(ftys):
         attrs = []
@@ -1112,8 +1154,12 @@ def gen_into(rng, rt):
 
 
 def gen_ctor(rng, rt):
-    gen = 0 if rt or rng.random() < 0.6 else rng.randrange(1, len(GENERICS))
+    gen = choose_gen(rng, rt)
     n = rng.choice(N_WEIGHTS)
+    if gen in GEN_TAGS:
+        ftys = with_tags(rng, gen, pick_fields(rng, n, rt))
+        return {"derive": "Constructor", "gen": gen, "style": style_for(rng, len(ftys)), "fields": ftys, "rt": rt,
+                "spell": gen_spell(rng), "raw": gen_raw(rng)}
     if rng.random() < 0.1:
         return {"derive": "Constructor", "gen": gen, "style": style_for(rng, 1), "fields": [sole_tuple_field(rng)], "rt": rt,
                 "spell": gen_spell(rng), "raw": gen_raw(rng)}
@@ -1218,6 +1264,25 @@ CORPUS = [
     {"derive": "Into", "gen": 0, "style": "named", "rt": True,
      "sattrs": [[["k", "ref", [("types::Ra0", "ignore::F1")]], ["k", "owned", [("forward::Qa0", "crate::Qb1")]]]],
      "fields": [["F0", [[["t", "ignore::Qa0"]]]], ["F1", [[["k", "ref_mut", ["r#ref::Rb1"]]]]]]},
+    # generic items whose own bounds (inline / where clause) are needed by a field type: every impl must carry them
+    {"derive": "From", "kind": "struct", "gen": 5, "style": "named", "attrs": [["forward"]],
+     "fields": ["F0", "F1", "Tag<T>"], "rt": True},
+    {"derive": "From", "kind": "struct", "gen": 5, "style": "tuple", "attrs": [], "fields": ["Tag<T>", "F1"], "rt": True},
+    {"derive": "From", "kind": "struct", "gen": 6, "style": "tuple", "attrs": [[("Pa0", "Tag<T>", "Tag<U>")]],
+     "fields": ["F0", "Tag<T>", "Tag<U>"], "rt": True},
+    {"derive": "From", "kind": "enum", "gen": 5, "rt": True, "variants": [
+        {"style": "tuple", "attrs": [["forward"]], "fields": ["F0", "Tag<T>"]},
+        {"style": "named", "attrs": [None], "fields": ["F1"]},
+        {"style": "tuple", "attrs": [[("Pa2", "Pb3", "F4")]], "fields": ["F2", "F3", "F4"]}]},
+    {"derive": "From", "kind": "enum", "gen": 4, "rt": True, "variants": [
+        {"style": "tuple", "attrs": [], "fields": ["Tag<T>"]}, {"style": "unit", "attrs": [], "fields": []}]},
+    {"derive": "Into", "gen": 5, "style": "named", "rt": True,
+     "sattrs": [[["k", "owned", None], ["k", "ref", None], ["k", "ref_mut", None]]],
+     "fields": [["F0", []], ["Tag<T>", []], ["F2", [[["t", "skip"]]]]]},
+    {"derive": "Into", "gen": 6, "style": "tuple", "rt": True, "sattrs": [[["k", "ref", [("Ra0", "Tag<T>", "Tag<U>")]]]],
+     "fields": [["F0", [[["k", "owned", None]]]], ["Tag<T>", []], ["Tag<U>", []]]},
+    {"derive": "Constructor", "gen": 5, "style": "named", "fields": ["F0", "Tag<T>"], "rt": True},
+    {"derive": "Constructor", "gen": 6, "style": "tuple", "fields": ["Tag<U>", "F3", "Tag<T>"], "rt": True},
     # the same wrapper several times in ONE attribute: every occurrence counts
     {"derive": "Into", "gen": 0, "style": "tuple", "rt": True,
      "sattrs": [[["k", "owned", ["Qa0"]], ["k", "ref", ["F0"]], ["k", "ref_mut", ["F0"]], ["k", "owned", ["Qb0"]]]],
@@ -1351,8 +1416,9 @@ def rt_from(case, cid, impls, rng, mode=None, orig=None):
         x = inst(d["src"])
         srcs_concrete.append(x)
         oid = "%s.v%d" % (cid, j)
+        tname = name + GENERICS[case["gen"]][1]
         body.append("{ take_log(); let s: %s = <%s as From<%s>>::from(%s); let o = %s; println!(\"%s\\t{}|{}\", o, take_log()); }"
-                    % (name, name, rust_ty(x), mk_val(x, 10), observe("s"), oid))
+                    % (tname, tname, rust_ty(x), mk_val(x, 10), observe("s"), oid))
         # model's prediction
         mlog = []
         mvals = [eval_value(v, ginst, mlog) for v in d["sem"]] if d["sem"] is not None else None
@@ -1408,7 +1474,7 @@ def rt_from(case, cid, impls, rng, mode=None, orig=None):
             seen.append(x)
     for j, x in enumerate(seen[:14]):
         oid = "%s.p%d" % (cid, j)
-        body.append('println!("%s\\t{}", impls_from!(%s, %s));' % (oid, name, rust_ty(x)))
+        body.append('println!("%s\\t{}", impls_from!(%s, %s));' % (oid, name + GENERICS[case["gen"]][1], rust_ty(x)))
         o_exp = any(unify_src(osrc, x, shape(ov)[1]) for (ov, osrc, _, _) in oracle)
         m_exp = any(unify_src(d["src"], x, shape(d["variant"])[1]) for d in impls)
         obs.append({"id": oid, "what": "probe", "model": str(m_exp).lower(), "oracle": str(o_exp).lower(),
@@ -1472,7 +1538,8 @@ def rt_into(case, cid, impls, rng, mode=None, orig=None):
             tsrc = into_target_src(kind, tys, static=False)
 
             def cands(t):
-                sub = "" if (isinstance(t, tuple) or is_f(t)) else (".ra" if t.startswith("Ra") else ".rb")
+                sub = ".ra" if isinstance(t, str) and t.startswith("Ra") else \
+                    (".rb" if isinstance(t, str) and t.startswith("Rb") else "")
                 cs = []
                 for i, f in enumerate(ftys):
                     ok = (f == t) if sub == "" else (is_f(f) and f[1:] == t[2:])
@@ -1553,7 +1620,7 @@ def rt_into(case, cid, impls, rng, mode=None, orig=None):
     for j, (k, comps) in enumerate(seen[:18]):
         oid = "%s.p%d" % (cid, j)
         tsrc = into_target_src(k, comps)
-        me = {"owned": "S", "ref": "&'static S", "ref_mut": "&'static mut S"}[k]
+        me = {"owned": "S", "ref": "&'static S", "ref_mut": "&'static mut S"}[k] + GENERICS[case["gen"]][1]
         body.append('println!("%s\\t{}", impls_from!(%s, %s));' % (oid, tsrc, me))
         o_exp = (k, tsrc) in o_set
         m_exp = (k, tsrc) in m_set
@@ -1572,7 +1639,8 @@ def rt_roundtrip(case, cid, m_ctor):
     style, ftys = case["style"], case["fields"]
     n = len(ftys)
     src = "#[derive(derive_more::From, derive_more::Into, derive_more::Constructor, Debug, PartialEq, Clone)] " + \
-          struct_src([], 0, style, fields_src(style, ftys, None, Speller(case.get("spell", 0)), case.get("raw")), "S")
+          struct_src([], case["gen"], style, fields_src(style, ftys, None, Speller(case.get("spell", 0)), case.get("raw")), "S")
+    sty_ = "S" + GENERICS[case["gen"]][1]
     tup = own_tuple(ftys)
     tsrc = rust_ty(tup)
     args = ", ".join(mk_val(t, 10 + i) for i, t in enumerate(ftys))
@@ -1580,13 +1648,13 @@ def rt_roundtrip(case, cid, m_ctor):
     obs_fields = observe_fields_expr(style, ftys, "s", case.get("raw"))
     body = [
         "let t: %s = %s;" % (tsrc, tval),
-        "let s: S = From::from(t.clone());",
+        "let s: %s = From::from(t.clone());" % sty_,
         'println!("%s.from\\t{}", %s);' % (cid, obs_fields),
         "let t2: %s = From::from(s.clone());" % tsrc,
         'println!("%s.rt1\\t{}", t2 == t);' % cid,
-        "let s2: S = From::from(t2);",
+        "let s2: %s = From::from(t2);" % sty_,
         'println!("%s.rt2\\t{}", s2 == s);' % cid,
-        "let s = S::new(%s);" % args,
+        "let s = <%s>::new(%s);" % (sty_, args),
         'println!("%s.new\\t{}", %s);' % (cid, obs_fields),
         "let t3: %s = From::from(s);" % tsrc,
         'println!("%s.rt3\\t{}", t3 == t);' % cid,
@@ -1998,8 +2066,9 @@ def run_rt_crate(chk, mods, cases, name):
         spans = []
         line = PRELUDE.count("\n") + 1
         for cid, src in mods:
-            text = "mod %s {\nuse super::*;\n%s\n}\n" % (cid, src)
-            run_line = line + 2 + src[:src.rindex("pub fn run()")].count("\n")
+            # `T` / `U` outside the item are the concrete instances of its type parameters
+            text = "mod %s {\nuse super::*;\npub type T = L0; pub type U = L1;\n%s\n}\n" % (cid, src)
+            run_line = line + 3 + src[:src.rindex("pub fn run()")].count("\n")
             spans.append((line, line + text.count("\n") - 1, cid, run_line))
             parts.append(text)
             line += text.count("\n")
@@ -2035,15 +2104,18 @@ def run_rt_crate(chk, mods, cases, name):
                         # an error located in the item itself comes from the derive's expansion, one located in
                         # `run()` from the documented way of using the impls
                         where = "expansion" if sp["line_start"] < run_line else "use"
-                        bad.setdefault(cid, (where, (msg.get("rendered") or msg.get("message") or "")[:1500]))
+                        bad.setdefault(cid, (where, (msg.get("rendered") or msg.get("message") or "")[:1500],
+                                             msg.get("message") or ""))
         if not bad:
             chk.violation("rt-crate-does-not-build", {"output": (err or "")[-3000:]},
                           "the generated crate does not build and the error is in no case module", no_input=True)
             return observed
-        for cid, (where, text) in bad.items():
+        for cid, (where, text, headline) in bad.items():
             c = cases[int(re.match(r"c(\d+)", cid).group(1))]
             cls = ("expansion-ill-typed-" if where == "expansion" else "rt-compile-error-") + c["derive"].lower()
-            if where == "expansion" and split_scope(c):
+            if where == "expansion" and c.get("gen") in GEN_TAGS and "Label" in headline:
+                cls = "user-where-clause-lost"          # the derived impl does not carry the item's own bounds
+            elif where == "expansion" and split_scope(c):
                 cls = SPLIT_KEY
             if c["derive"] == "Into" and has_one_tuple(c):
                 cls = "into-listed-one-tuple-flattened"
